@@ -105,3 +105,62 @@ def codesep_script(rng, depth, size):
 
 
 P2PKH = "76a914" + "11" * 20 + "88ac"
+
+
+# ---------------------------------------------------------------- deterministic boundary material (audit classes 1-6)
+def build_tx(ver, ins, outs, lt):
+    """ins: [(txid32 bytes, vout, script bytes, seq)], outs: [(value, script bytes)]"""
+    b = ver.to_bytes(4, "little") + varint(len(ins))
+    for (txid, vout, scr, seq) in ins:
+        b += txid + vout.to_bytes(4, "little") + varint(len(scr)) + scr + seq.to_bytes(4, "little")
+    b += varint(len(outs))
+    for (val, scr) in outs:
+        b += val.to_bytes(8, "little") + varint(len(scr)) + scr
+    return b + lt.to_bytes(4, "little")
+
+
+def tid(n):
+    return bytes((n * 37 + k * 11 + 1) % 256 for k in range(32))
+
+
+P2 = lambda n: bytes.fromhex("76a914") + bytes([n]) * 20 + bytes.fromhex("88ac")
+
+# 3-in / 3-out transactions whose 32-bit fields sit on the signed / unsigned and 0 / 1 / max boundaries, every input with a
+# different sequence and an outpoint index different from its own position, every output with a different value and script
+EXTREME_TXS = [
+    build_tx(0x80000000, [(tid(1), 0xFFFFFFFF, b"\x51", 0xFFFFFFFF), (tid(2), 0x80000001, b"", 0x80000000), (tid(3), 0, b"\x01\xab", 1)],
+             [(2 ** 63, P2(1)), (1, b""), (U64 - 1, P2(3))], 0xFFFFFFFF),
+    build_tx(0xFFFFFFFF, [(tid(4), 2, b"", 0), (tid(5), 0xFFFFFFFE, b"\x00", 0xFFFFFFFE), (tid(6), 1, b"\x51", 0x7FFFFFFF)],
+             [(0, b"\x6a"), (2 ** 32, P2(5)), (2 ** 63 - 1, b"\x51")], 0x80000000),
+    build_tx(0, [(tid(7), 1, b"", 1), (tid(8), 0x7FFFFFFF, b"", 0), (tid(9), 0x80000000, b"", 0xFFFFFFFF)],
+             [(0x00FF000000000000, P2(7)), (255, P2(8)), (256, P2(9))], 1),
+    build_tx(1, [(tid(10), 0, b"", 0xFFFFFFFE), (tid(10), 0, b"", 0xFFFFFFFE), (tid(11), 0, b"", 0xFFFFFFFD)],      # duplicate outpoint
+             [(5, P2(1)), (5, P2(1)), (6, P2(1))], 0xFFFFFFFE),
+]
+# output scripts on the compact-size boundary inside hashOutputs
+LONG_OUT_TX = build_tx(2, [(tid(12), 3, b"", 0x01020304), (tid(13), 0, b"", 0x05060708), (tid(14), 1, b"", 0x090A0B0C)],
+                       [(1, b"\x61" * 252), (2, b"\x61" * 253), (3, b"")], 0x11223344)
+SHAPE_TXS = [
+    build_tx(1, [(tid(20), 5, b"\x51", 0x01020304)], [], 7),
+    build_tx(1, [(tid(21), 5, b"\x51", 0x01020304)], [(9, P2(2))], 7),
+    build_tx(1, [(tid(22), 5, b"", 0x04030201)], [(9, P2(2)), (10, P2(3)), (11, b"")], 7),
+    build_tx(1, [(tid(23), 1, b"", 0x0A0B0C0D), (tid(24), 0, b"", 0x0D0C0B0A), (tid(25), 2, b"", 0x00000100)], [], 0x01000000),
+]
+VALUES = [2 ** 63 - 1, 2 ** 63, 2 ** 63 + 1, U64 - 1, 1, 255, 256, 2 ** 32, 0x00FF000000000000, 2 ** 56 - 1, 0x0000000000010000]
+
+# subscripts with OP_CODESEPARATOR (0xab) in every syntactic neighbourhood; legacy removes the opcodes, FORKID keeps the bytes
+SEP_SCRIPTS = [
+    "ab", "abab", "ababab", "ab76", "76ab", "76abab88", "ab76ab88ab", "abab76abab",
+    "ab635168", "63ab5168", "6351ab68", "635168ab", "63ab68", "63abab68", "ab63ab51ab68ab",
+    "ab645168", "64ab5168", "6451ab68", "645168ab",
+    "6351ab675268", "635167ab5268", "63516752ab68", "63ab67ab68", "63abab67abab68", "6351ab67ab68ab",
+    "636351ab67ab52686764ab53ab6768ab68", "63ab63ab63ab68ab68ab68", "6367ab6351ab67ab52ab6868", "64ab67ab64ab67ab6868ab",
+    "abab63abab51abab67abab52abab68abab", "ab6368", "6368ab", "ab63ab67ab68ab",
+    "01ab", "02abab", "01abab", "ab01ab", "4c01ab", "4c02ababab", "4d0100ab", "4e01000000ab", "0263ab", "02ab68ab",
+    "6301ab68", "63ab01abab68", "630051ab6700ab68", "ab00ab", "00abab51",
+]
+CORE_SEP = ["abab", "ab63ab51ab68ab", "63ab67ab68", "63abab67abab68", "636351ab67ab52686764ab53ab6768ab68", "02abab", "ab01ab", "abab63abab51abab67abab52abab68abab"]
+# subscript lengths: compact-size thresholds and totals whose low byte looks like a threshold / zero
+SUB_LENS = [252, 253, 255, 256, 509, 65021, 65535, 65536]
+# 253 identical all-zero inputs and 256 all-zero outputs (counts on the compact-size boundary): descriptor, not a literal
+BIG_COUNT_TX = "02000000+fdfd00+r:00:%d+fd0001+r:00:%d+00000000" % (253 * 41, 256 * 9)
